@@ -2832,7 +2832,8 @@ def _naming_follows_age(ctx):
             me.attrs.update(contracted=tuple(sorted(G + H, key=ckey)), target=(), sympy=sy, assumptions={})
             me.__dict__["G"] = G
             return dict(self=me, return_sympy=False, only_build_sub=True)
-        sx = Symex(ctx.model, inline=lambda q: q in ("indices:get_lowest_avail_indices", "indices:order_substitutions"), what="substitute_contracted",
+        sx = Symex(ctx.model, inline=lambda q: q in ("indices:get_lowest_avail_indices", "indices:order_substitutions") or
+                   q.startswith("expr_container:Term.") or q.startswith("expr_container:_"), what="substitute_contracted",
                    hooks={"get_symbols": get_symbols}, max_paths=64)
         holder = {}
 
